@@ -97,6 +97,12 @@ def run(ctx):
         "a pinning endpoint is recognised on the decoded path: percent-encoded spellings (letters, %2F separators) are the "
         "same request and must be hijacked like the plain spelling; encoded near-misses must be relayed with the escaped "
         "path preserved",
+        "faults: one RPC of the add path (BlockAllocate, first BlockPut, BlockPut of the root, Cluster.Pin) fails without "
+        "effect; other routes run without faults (pin/update and add?pin=false cannot be atomic when their second RPC fails)",
+        "client hang-up: the driver closes the connection right after the headers or right after the entry carrying the "
+        "root hash, then waits until no RPC arrived for 700 ms (handler pause: 100 ms) and up to 5 s for the Unpin call; "
+        "the harness Unpin returns ctx.Err() under a cancelled context, as the real consensus layer does",
+        "repo/gc: an X-Stream-Error trailer listing per-key failures is the faithful answer, not an error answer",
         "not covered: several arg= values on pin add/rm, CONNECT/upgrade, "
         "concurrent requests",
     ]
@@ -104,6 +110,13 @@ def run(ctx):
     cases_file = os.path.join(ctx.work, "c12_requests.ndjson")
     ctx.tlc("ProxyMC.tla", "ProxyMC.cfg", timeout=1800, env_extra={"CASES_FILE": cases_file})
     ctx.tlc("ProxySeq.tla", "ProxySeq.cfg", timeout=1800)
+    # addHandler step model: every position of the client disconnect; the non-coded settings must give the
+    # design-level counterexamples that the hangup / fault cases realise on the real proxy
+    ctx.tlc("ProxyAdd.tla", "ProxyAdd_coded.cfg", timeout=600, workers=2)
+    for cfg, inv in (("ProxyAdd_reqctx.cfg", "PinFalseHonoured"), ("ProxyAdd_unpinerr.cfg", "ErrorMeansNoOp")):
+        r = ctx.tlc("ProxyAdd.tla", cfg, timeout=600, workers=1, count=False, expect_violation=True)
+        if inv not in (r.violation or ""):
+            raise vcheck.Infra("ProxyAdd/%s: expected the design-level counterexample to %s" % (cfg, inv))
     ctx.exhaustive = True
     reqs = [json.loads(l) for l in open(cases_file)]
     ctx.extra["request_classes_enumerated_by_tlc"] = len(reqs)
@@ -169,7 +182,13 @@ def key_of(cls, rec):
             return "C12:exact:%s:answered-by-proxy-%s" % (q["pathk"], o["status"])
         return "C12:%s:%s:%s" % (cls, q["pathk"], q["method"])
     r = q["route"]
-    if r == "add":
+    if r == "add" and q.get("fault", "-") != "-":
+        sal = "fault=%s:pin=%s" % (q["fault"], q["pin"])
+    elif r == "add" and q.get("hangup", "-") != "-":
+        sal = "hangup=%s:pin=%s" % (q["hangup"], q["pin"])
+    elif r == "repo/gc":
+        sal = "stream-errors=%s:failed=%s" % (q["streamerr"], q.get("gcerr", "-"))
+    elif r == "add":
         if q["onlyhash"] == "true":
             sal = "only-hash=true"
         elif q["body"] != "mp":
